@@ -29,7 +29,9 @@
 //	notif:trimmed-within-retention    a round removed a batch younger than now-retention, or not a prefix
 //
 // -mode uncommitted: rf = 2 with an in-process follower whose acknowledgements the harness holds back: nothing may be
-// stored or delivered for an entry that is appended but not committed (verdict notif:delivered-above-commit).
+// stored or delivered for an entry that is appended but not committed (verdict notif:delivered-above-commit); then the
+// wake-up scenario: one waiting subscriber, 30000 single writes, each batch must arrive before the next write
+// (verdict notif:committed-batch-not-delivered: lost wake-up in notificationsTracker, O-17d).
 // -mode real-client: ONE scenario through oxia.VerifNewNotifications = newNotifications with its goroutines and its
 // retry loop (about 1.5 s of back-off): the O-17 scenario (initialised on an empty shard, reconnect before the first batch).
 package main
@@ -294,22 +296,24 @@ func (w *world) rawStream(start *int64) {
 		time.Sleep(100 * time.Microsecond)
 	}
 	time.Sleep(time.Millisecond) // anything beyond the expected batches would follow at once
-	cancel()
 	mu.Lock()
-	defer mu.Unlock()
+	snap := append([]*proto.NotificationBatch(nil), got...) // what happened before the harness hangs up
+	sdone, sfin := done, fin
+	mu.Unlock()
+	cancel()
 	op := fmt.Sprintf("GN:%s:%d", optI(start), qc)
-	if done && fin != nil && len(got) == 0 {
-		w.record(op, "err:"+errKind(fin))
+	if sdone && sfin != nil && len(snap) == 0 {
+		w.record(op, "err:"+errKind(sfin))
 		w.o.Count("raw-stream:err")
 		return
 	}
 	var xs []string
-	for _, b := range got {
+	for _, b := range snap {
 		xs = append(xs, batchS(b))
 	}
 	w.record(op, join(xs, ","))
 	w.o.Count("raw-stream")
-	w.judgeStream(op, got, want, dummy, qc)
+	w.judgeStream(op, snap, want, dummy, qc)
 }
 
 func errKind(err error) string {
@@ -691,6 +695,11 @@ func main() {
 	switch *mode {
 	case "uncommitted":
 		runUncommitted(o, hx.NewRng(f.Seed), f.N)
+		rounds := 30000
+		if f.Tier == "thorough" {
+			rounds = 400000
+		}
+		runWakeup(o, rounds)
 	case "real-client":
 		runRealClient(o)
 	default:
